@@ -10,6 +10,11 @@ import CLModel.History.State
 import CLModel.Proofs.C18Digits
 import CLModel.Proofs.C18Natural
 import CLModel.Proofs.C18State
+import CLModel.History.Machine
+import CLModel.Proofs.C18MLint
+import CLModel.Proofs.C18MCache
+import CLModel.Proofs.C18MStep
+import CLModel.Proofs.C18MObserver
 namespace C18
 open Hist P
 
@@ -232,5 +237,346 @@ theorem report_depends_on_history_when_keys_clash :
   injection h with h _
   injection h with h _
   cases h
+
+/-! ## Round 4: the whole state machine `HistM` (model: CLModel/History/Machine.lean)
+
+State components: `Junk.junkid`, the parser singletons and every Context (`S.g`), the inc filter flag of the
+DefinesParser singleton's Context (`S.incFlag`), the entry points of `getParser` (`S.ep`), `mozpath.re_cache`
+(`S.reCache`), every live `Matcher` with `_cached_re` (`S.matchers`), every live `ProjectConfig` with `_all_locales`
+and `_cache` (`S.configs`), every live `DTDChecker` with `__known_entities` (`S.checkers`),
+`DTDChecker.texthandler.textcontent` (`S.textcontent`). -/
+
+section machine
+open HistM C18M
+
+def T (s : String) : List Nat := s.toList.map Char.toNat
+
+deriving instance DecidableEq for Except
+
+/-- Every memo the tools can have built holds what a fresh computation would return: in every state reachable from
+    a fresh interpreter by operations that do not add rules or paths to a configuration whose filter cache is
+    filled, `mozpath.re_cache[p]` is the regex of `p`, every `Matcher._cached_re` is the regex of its own pattern and
+    environment, every `ProjectConfig._all_locales` / `_cache` (and the regexes of the `with_env` matchers inside)
+    is what `all_locales` / `cache(locale)` compute from the current paths and rules, every
+    `DTDChecker.__known_entities` is the set computed from its reference. -/
+theorem memo_coherent_reachable (ep : EpEnv) (s : S) (h : Reachable ep s) : Inv s :=
+  reachable_inv ep s h
+
+/-- `out_independent`, all operations.  In every reachable state the output of an operation is a function of its
+    arguments and of the construction data of the objects it names (`s.view`: pattern / environment of a Matcher,
+    locales / paths / rules of a ProjectConfig, flags / reference of a DTDChecker, the installed entry points) —
+    `pureOut`, the cache-free and counter-free reference semantics built from `PM.mozMatch`, `PM.Matcher.match` /
+    `sub`, `FiltM.filterS`, `Ser.serializeText`, `Merge.mergeTexts`, `Dtd.entitiesForValue`, the linter and the
+    comparison of a fresh interpreter.  Junk ids of parse listings are shifted by the counter, nothing else shows.
+    `Op.closed`: compare / lint / merge under `NoJunkLikeKeys` (finding F8), not `reobs` / `rewalk` (whose argument
+    is a piece of the state). -/
+theorem out_independent_all (ep : EpEnv) (s : S) (h : Reachable ep s) (op : HistM.Op) (hc : op.closed) :
+    (HistM.step s op).2 = (pureOut s.view op).shift s.g.junkid s.g.heap.length :=
+  step_out_pure s (reachable_inv ep s h) op hc
+
+/-- … hence two reachable states in which the same objects are alive (same construction data; counters, contexts
+    and every cache may differ) return the same result. -/
+theorem out_same_in_any_two_states (ep ep' : EpEnv) (s s' : S) (h : Reachable ep s) (h' : Reachable ep' s')
+    (hv : s.view = s'.view) (op : HistM.Op) (hc : op.closed) :
+    ((HistM.step s op).2).shift s'.g.junkid s'.g.heap.length
+      = ((HistM.step s' op).2).shift s.g.junkid s.g.heap.length := by
+  rw [out_independent_all ep s h op hc, out_independent_all ep' s' h' op hc, hv, out_shift_shift, out_shift_shift,
+    Nat.add_comm s.g.junkid, Nat.add_comm s.g.heap.length]
+
+/-- Whole histories: the results of a sequence of operations (no `add_rules` / `add_paths` after construction) do
+    not depend on the state it is started in, only on the objects alive at the start. -/
+theorem run_independent_all (ep ep' : EpEnv) (s s' : S) (h : Reachable ep s) (h' : Reachable ep' s')
+    (hv : s.view = s'.view) (d a : Nat) (hj : s.g.junkid = s'.g.junkid + d) (hh : s.g.heap.length = s'.g.heap.length + a)
+    (ops : List HistM.Op) (hc : ∀ op ∈ ops, op.closed ∧ op.mutatesConfig = false) :
+    (HistM.run s ops).2 = ((HistM.run s' ops).2).map (HistM.Out.shift d a) :=
+  run_out_indep ops s s' d a (reachable_inv ep s h) (reachable_inv ep' s' h') hv hj hh hc
+
+/-- What the live objects ARE evolves independently of what they have cached: constructors and the three mutators
+    change the view, every query leaves it alone. -/
+theorem view_independent_of_caches (ep : EpEnv) (s : S) (h : Reachable ep s) (op : HistM.Op) :
+    (HistM.step s op).1.view = viewStep s.view op :=
+  view_step s (reachable_inv ep s h) op
+
+/-- `config.filter(file, entity)` returns the verdict of the cache-free model `FiltM.filterS` of C14 whatever was
+    asked before (other files, other locales, `all_locales`, `set_locales`), and leaves paths and rules as they are. -/
+theorem filter_ignores_caches (ep : EpEnv) (s : S) (h : Reachable ep s) (id : Nat) (c : CObj)
+    (hg : AR.dget s.configs id = some c) (file : Filt.File) (entity : Option (List Nat)) :
+    (HistM.step s (.cFilter id file entity)).2 = .action (FiltM.filterS c.spec file entity) := by
+  simp only [HistM.step, hg]
+  rw [(CObj.filter_spec c (inv_config (reachable_inv ep s h) hg) file entity).1]
+
+/-- `matcher.match(path)` is `PM.Matcher.match` of the matcher's pattern and environment, with or without a
+    compiled regex from an earlier call; `with_env` starts without one. -/
+theorem match_ignores_cached_re (ep : EpEnv) (s : S) (h : Reachable ep s) (id : Nat) (o : MObj)
+    (hg : AR.dget s.matchers id = some o) (path : List Nat) :
+    (HistM.step s (.mMatch id path)).2 = .mres (o.m.match path) := by
+  simp only [HistM.step, hg]
+  rw [(MObj.match_spec o (inv_matcher (reachable_inv ep s h) hg) path).1]
+
+/-- `mozpath.match(path, pattern)` is `PM.mozMatch` whatever `re_cache` holds. -/
+theorem mozmatch_ignores_re_cache (ep : EpEnv) (s : S) (h : Reachable ep s) (path pattern : List Nat) :
+    (HistM.step s (.mozMatch path pattern)).2 = .bool (PM.mozMatch path pattern) := by
+  simp only [HistM.step]
+  rw [(mozMatchS_spec s.reCache (reachable_inv ep s h).1 path pattern).1]
+
+/-- `getParser(path)` reads no mutable state at all: the class returned (and whether it is a shared instance)
+    depends on the path and the installed entry points only — in particular a look-alike name or an unknown
+    extension is answered the same before and after real files were parsed. -/
+theorem getparser_stateless (s s' : S) (he : s.ep = s'.ep) (path : List Nat) :
+    (HistM.step s (.getParser path)).2 = (HistM.step s' (.getParser path)).2 := by
+  simp only [HistM.step, he]
+
+/-- The class-level text handler never leaks: what `processAndroidContent` is called with is the character data of
+    THIS localized value (Android checks) or nothing, whatever `DTDChecker.texthandler.textcontent` held before. -/
+theorem texthandler_reset_before_use (d : DObj) (t t' chars) :
+    (d.checkText t chars).2 = (d.checkText t' chars).2 ∧
+    (d.checkText t chars).2 = if d.android then some (chars.foldl (· ++ ·) []) else none :=
+  ⟨DObj.checkText_indep d t t' chars, DObj.checkText_spec d t chars⟩
+
+/-- `inc filter state stored on the context, not the parser`: after reading ANY `.inc` text the flag of the
+    singleton's Context is the one a walk from a fresh Context ends with — the flag before does not matter. -/
+theorem inc_flag_fresh_per_read (s : S) (t : Array Nat) :
+    (HistM.step s (.base (.parse .inc t))).1.incFlag = (incWalk t false).2 ∧ (incWalk t false).1 = walk .inc t :=
+  ⟨rfl, incWalk_fresh t⟩
+
+/-- Walking the Context a parser currently holds once more (`rewalk`; not a closed operation: its argument is the
+    state) returns, for every format but `.inc`, the listing of the parse with fresh junk ids … -/
+theorem rewalk_same_listing (s : S) (f : Fmt) (hf : f ≠ .inc) (t : Array Nat) :
+    (HistM.step (HistM.step s (.base (.parse f t))).1 (.rewalk f)).2
+      = .base (.parsed (stuckAt (walk f t))
+          ((ents0 f t).map (Ent.shift (s.g.junkid + bump0 f t) s.g.heap.length))) := by
+  have hp : (HistM.step s (.base (.parse f t))).1.g = (doParse s.g f t).1 := rfl
+  simp only [HistM.step, doRewalk]
+  have h1 : (Hist.step s.g (.parse f t)).1 = (doParse s.g f t).1 := rfl
+  rw [h1]
+  have hpc : (doParse s.g f t).1.pctx f = some s.g.heap.length := by simp [doParse]
+  have hheap : (doParse s.g f t).1.heap[s.g.heap.length]? = some { contents := t } := by
+    rw [doParse_heap]; simp
+  simp only [hpc, hheap]
+  have hwf : ∀ fl : Bool, walkFl f t fl = (walk f t, fl) := by
+    intro fl
+    cases f <;> first | rfl | exact absurd rfl hf
+  simp only [hwf]
+  have := assign_shift f t 0 s.g.heap.length (s.g.junkid + bump0 f t) (entriesOf (walk f t)) 0 0
+  simp only [Nat.zero_add] at this
+  rw [doParse_junkid, Nat.add_comm (bump0 f t), this]
+  rfl
+
+
+/-- the kinds of the entries of a parse listing -/
+def kindsOf : HistM.Out → List Kind
+  | .base (.parsed _ ents) => ents.map (·.entry.kind)
+  | _ => []
+
+/-- … but NOT for `.inc`: the filter flag lives on the Context and is left at its last value, so a second walk of
+    the same Context starts with it.  `"#define a\n\n#filter emptyLines\n"`: the blank line is Junk in the first
+    walk, Whitespace in the second.  (No tool walks a Context twice; `compare`, `lint`, `merge_channels`,
+    `serialize` read a file into a new Context each time.) -/
+theorem rewalk_inc_depends_on_flag :
+    kindsOf (HistM.step S.init (.base (.parse .inc (T "#define a\n\n#filter emptyLines\n").toArray))).2
+      = [.entity, .junk, .instruction, .whitespace] ∧
+    kindsOf (HistM.step (HistM.step S.init (.base (.parse .inc (T "#define a\n\n#filter emptyLines\n").toArray))).1
+        (.rewalk .inc)).2 = [.entity, .whitespace, .instruction, .whitespace] := by
+  decide +kernel
+
+
+/-- Every `readUnicode` / `readFile` / `readContents` REPLACES the per-parse Context: whatever the shared parser of the
+    format held before (any text, a filled line cache, the `.inc` filter switched on), afterwards it holds a NEW
+    Context object with the given contents, no line cache, for the DefinesParser `filter_empty_lines = False`; the
+    junk counter and all older Context objects (which earlier entities still point to) are untouched. -/
+theorem read_replaces_context (s : S) (f : Fmt) (t : Array Nat) :
+    (HistM.step s (.read f t)).1.g.pctx f = some s.g.heap.length ∧
+    (HistM.step s (.read f t)).1.g.heap[s.g.heap.length]? = some { contents := t, lines := none } ∧
+    (f = .inc → (HistM.step s (.read f t)).1.incFlag = false) ∧
+    (HistM.step s (.read f t)).1.g.junkid = s.g.junkid ∧
+    (∀ (i : Nat) (c : Ctx), s.g.heap[i]? = some c → (HistM.step s (.read f t)).1.g.heap[i]? = some c) := by
+  refine ⟨by simp [HistM.step, doRead], by simp [HistM.step, doRead], ?_, rfl, ?_⟩
+  · intro hf; subst hf; rfl
+  · intro i c hc
+    have hlt : i < s.g.heap.length := by
+      rw [List.getElem?_eq_some_iff] at hc
+      exact hc.1
+    simp only [HistM.step, doRead]
+    rw [List.getElem?_append_left hlt]
+    exact hc
+
+/-- `parse` is `read` followed by a walk of the new Context: same listing, same counter, same contexts, same filter
+    flag — so a walk right after a read never sees anything of the text read before, even when it is the SAME text. -/
+theorem parse_is_read_then_walk (s : S) (f : Fmt) (t : Array Nat) :
+    (HistM.step (HistM.step s (.read f t)).1 (.rewalk f)).2 = (HistM.step s (.base (.parse f t))).2 ∧
+    (HistM.step (HistM.step s (.read f t)).1 (.rewalk f)).1.g.junkid = (HistM.step s (.base (.parse f t))).1.g.junkid ∧
+    (HistM.step (HistM.step s (.read f t)).1 (.rewalk f)).1.g.heap = (HistM.step s (.base (.parse f t))).1.g.heap ∧
+    (HistM.step (HistM.step s (.read f t)).1 (.rewalk f)).1.g.pctx = (HistM.step s (.base (.parse f t))).1.g.pctx ∧
+    (HistM.step (HistM.step s (.read f t)).1 (.rewalk f)).1.incFlag = (HistM.step s (.base (.parse f t))).1.incFlag := by
+  have hpc : (doRead s f t).g.pctx f = some s.g.heap.length := by simp [doRead]
+  have hheap : (doRead s f t).g.heap[s.g.heap.length]? = some { contents := t } := by simp [doRead]
+  have hw : ∀ fl : Bool, walkFl f t (readFl f fl) = (walk f t, incFinal f t fl) := by
+    intro fl
+    cases f <;> first | rfl | (simp only [walkFl, readFl, incFinal]; rw [← incWalk_fresh t])
+  simp only [HistM.step, doRewalk, hpc, hheap]
+  have hfl : (doRead s f t).incFlag = readFl f s.incFlag := rfl
+  rw [hfl, hw s.incFlag]
+  refine ⟨rfl, rfl, rfl, rfl, rfl⟩
+
+/-- In particular reading the same text twice in a row: the second parse returns the listing of the first (fresh
+    junk ids), for every format and every text — also for an `.inc` text that ends with the filter switched on. -/
+theorem parse_twice_same_listing (s : S) (f : Fmt) (t : Array Nat) :
+    (HistM.step (HistM.step s (.base (.parse f t))).1 (.base (.parse f t))).2
+      = ((HistM.step s (.base (.parse f t))).2).shift (bump0 f t) 1 := by
+  have h1 := step_closed_out (doParse s.g f t).1 s.g (bump0 f t) 1 (.parse f t) trivial
+    (by rw [doParse_junkid]; omega) (by rw [doParse_heap]; simp)
+  simp only [HistM.step, HistM.Out.shift]
+  congr 1
+
+/-- non-vacuity on the text of the seeded regression: `"#define a\n\n#filter emptyLines\n"` read twice gives Junk for the
+    blank line both times (the second Context starts with the filter off again) -/
+example : kindsOf (HistM.step (HistM.step S.init (.base (.parse .inc (T "#define a\n\n#filter emptyLines\n").toArray))).1
+    (.base (.parse .inc (T "#define a\n\n#filter emptyLines\n").toArray))).2 = [.entity, .junk, .instruction, .whitespace] := by
+  decide +kernel
+
+/-! ### negation witness: `add_rules` after a query (Python never resets `_cache`) -/
+
+def actionOf : HistM.Out → Option (Except PM.PyErr Filt.Action)
+  | .action r => some r
+  | _ => none
+
+def cfgOps : List HistM.Op :=
+  [.cNew 1 (some [T "de"]) [] none [⟨T "/l/{locale}/**", none⟩] [],
+   .cFilter 1 ⟨T "/l/de/a", T "de"⟩ none,
+   .cAddRules 1 [⟨T "/l/de/a", none, .ignore⟩],
+   .cFilter 1 ⟨T "/l/de/a", T "de"⟩ none]
+
+/-- the same configuration asked without the earlier query -/
+def cfgOpsFresh : List HistM.Op :=
+  [.cNew 1 (some [T "de"]) [] none [⟨T "/l/{locale}/**", none⟩] [],
+   .cAddRules 1 [⟨T "/l/de/a", none, .ignore⟩],
+   .cFilter 1 ⟨T "/l/de/a", T "de"⟩ none]
+
+/-- `Op.safe` is necessary: a rule added AFTER a filter query for the same locale is not seen (the `FilterCache`
+    built by the first query is returned again): verdict `error` instead of `ignore`.  The configuration is the same
+    in both histories, the answer differs.  (`TOMLParser` builds a configuration completely before it is used, so no
+    tool does this; `set_locales` — which the tools do call later — is safe.) -/
+theorem filter_stale_after_add_rules :
+    (HistM.run S.init cfgOps).2.map actionOf = [none, some (.ok .error), none, some (.ok .error)] ∧
+    (HistM.run S.init cfgOpsFresh).2.map actionOf = [none, none, some (.ok .ignore)] := by
+  decide +kernel
+
+/-- the third operation of that history is not safe -/
+example : ¬ (HistM.Op.cAddRules 1 [⟨T "/l/de/a", none, .ignore⟩]).safe
+    (HistM.run S.init (cfgOps.take 2)).1 := by
+  intro h
+  have hc : ∃ c, AR.dget (HistM.run S.init (cfgOps.take 2)).1.configs 1 = some c ∧ c.cache.isSome = true := by
+    decide +kernel
+  obtain ⟨c, hg, hs⟩ := hc
+  rw [h c hg] at hs
+  cases hs
+
+/-! ### negation witness: the linter and F8 -/
+
+def lintOf : HistM.Out → Option (Except String (List (LMsg (List Nat))))
+  | .lint r => some r
+  | _ => none
+
+/-- without `NoJunkLike1` the linter's result depends on what was processed before (finding F8, second face):
+    linting `"_junk_1_16-19=1\nzzz"` in a fresh interpreter reports the real string as a duplicate of the Junk (the
+    Junk gets id 1), after one earlier Junk anywhere in the process it does not. -/
+theorem lint_depends_on_history_when_keys_clash :
+    lintOf (HistM.step S.init (.lint .ini none l10nW)).2
+      = some (.ok [.dup K1 (1, 1), .junk [122, 122, 122] (2, 1) (2, 4)]) ∧
+    lintOf (HistM.step { g := { junkid := 1 } } (.lint .ini none l10nW)).2
+      = some (.ok [.junk [122, 122, 122] (2, 1) (2, 4)]) := by
+  decide +kernel
+
+/-! ### non-vacuity of the round-4 theorems -/
+
+/-- a reachable state with a filled `re_cache`, a matcher with a compiled regex, a configuration with both memos
+    filled: the theorems apply to it -/
+def warmOps : List HistM.Op :=
+  [.mozMatch (T "foo/bar") (T "foo/*"),
+   .mNew 1 (T "/l/{locale}/*.ini") [] none, .mWithEnv 1 2 [(T "locale", T "de")], .mMatch 2 (T "/l/de/a.ini"),
+   .cNew 1 (some [T "de"]) [] none [⟨T "/l/{locale}/**", none⟩] [⟨T "/l/de/a", none, .ignore⟩],
+   .cFilter 1 ⟨T "/l/de/a", T "de"⟩ none,
+   .base (.parse .ini refA)]
+
+theorem reachable_run (ep : EpEnv) : ∀ (ops : List HistM.Op) (s : S), Reachable ep s →
+    (∀ op ∈ ops, op.mutatesConfig = false) → Reachable ep (HistM.run s ops).1 := by
+  intro ops
+  induction ops with
+  | nil => intro s h _; exact h
+  | cons op t ih =>
+    intro s h hf
+    simp only [HistM.run]
+    exact ih _ (Reachable.step s op h (safe_of_frozen s op (hf op List.mem_cons_self)))
+      (fun o ho => hf o (List.mem_cons_of_mem _ ho))
+
+theorem warm_reachable : Reachable (.plugins []) (HistM.run S.init warmOps).1 :=
+  reachable_run _ warmOps _ Reachable.init (by decide)
+
+/-- the caches of that state are really filled … -/
+example : (HistM.run S.init warmOps).1.reCache.length = 1 ∧
+    ((HistM.run S.init warmOps).1.matchers.map (fun p => (p.1, p.2.cached.isSome))) = [(1, false), (2, true)] ∧
+    ((HistM.run S.init warmOps).1.configs.map (fun p => (p.2.allLoc.isSome, p.2.cache.isSome))) = [(true, true)] ∧
+    (HistM.run S.init warmOps).1.g.junkid = 1 := by decide +kernel
+
+/-- … and the filter query answered from the warm caches is the verdict of the cache-free model (here: ignore) -/
+example : actionOf (HistM.step (HistM.run S.init warmOps).1 (.cFilter 1 ⟨T "/l/de/a", T "de"⟩ none)).2
+    = some (.ok .ignore) := by decide +kernel
+
+end machine
+
+/-! ## `multi_file_union` for the Observer's aggregation (C10 models `ObsM.Obs`, `TreeM.Tree`) -/
+
+section observer
+open TreeM ObsM C18M
+
+/-- Order independence of the aggregated report.  A multi-file run hands the Observer one block of notifications
+    and one `updateStats` per file pair (`bs`; every block speaks about its own file, different files have different
+    tree paths).  For EVERY permutation of the file pairs the observer ends with the same details under every path
+    and the same number in every summary cell — for every quiet level and every filter. -/
+theorem multi_file_union_observer_order (q : Nat) (flt : Option Filter) (bs bs' : List (File × List Ev))
+    (hown : OwnFile bs) (hsep : bs.Pairwise SepPath) (hperm : bs.Perm bs') (o o' : ObsM.Obs)
+    (hr : (ObsM.Obs.init q flt).run (flat bs) = .ok o) (hr' : (ObsM.Obs.init q flt).run (flat bs') = .ok o') :
+    (∀ p, find o.details p = find o'.details p) ∧
+    (∀ loc key, getCount o.summary loc key = getCount o'.summary loc key) :=
+  observer_order_independent q flt bs bs' hown hsep hperm o o' hr hr'
+
+/-- … and the aggregated report is exactly the union of the single-file reports: under the path of a file the
+    details the run over that file pair alone stores, in every summary cell the sum over the single-file runs. -/
+theorem multi_file_union_observer (q : Nat) (flt : Option Filter) (bs : List (File × List Ev))
+    (hown : OwnFile bs) (hsep : bs.Pairwise SepPath) (o : ObsM.Obs) (hr : (ObsM.Obs.init q flt).run (flat bs) = .ok o) :
+    (∀ b ∈ bs, ∀ ob, (ObsM.Obs.init q flt).run b.2 = .ok ob → ∀ p, hasParts b.1 p = true →
+        find o.details p = find ob.details p) ∧
+    (∀ (obOf : File × List Ev → ObsM.Obs), (∀ b ∈ bs, (ObsM.Obs.init q flt).run b.2 = .ok (obOf b)) →
+        ∀ loc key, getCount o.summary loc key = (bs.map (fun b => getCount (obOf b).summary loc key)).sum) :=
+  observer_union q flt bs hown hsep o hr
+
+/-- two files with different tree paths are separated -/
+theorem sepPath_of_parts (a b : File × List Ev) (pa pb : List Part) (ha : partsOf a.1 = .ok pa)
+    (hb : partsOf b.1 = .ok pb) (hne : pa ≠ pb) : SepPath a b := by
+  intro p hp
+  obtain ⟨h1, h2⟩ := hp
+  simp only [hasParts, ha, hb] at h1 h2
+  have e1 : pa = p := by simpa using h1
+  have e2 : pb = p := by simpa using h2
+  exact hne (e1.trans e2.symm)
+
+def fileA : File := { file := T "a.ini", module := none, locale := some (T "de") }
+def fileB : File := { file := T "browser/b.ini", module := none, locale := some (T "de") }
+def blocksAB : List (File × List Ev) :=
+  [(fileA, [.notify .missingEntity fileA (.str (T "k")), .stats fileA [(.missing, 1), (.unchanged, 2)]]),
+   (fileB, [.notify .error fileB (.str (T "Unparsed content")), .stats fileB [(.obsolete, 1)]])]
+
+/-- non-vacuity: the hypotheses hold for a two-file project, both orders run, and the theorem applies -/
+example : OwnFile blocksAB ∧ blocksAB.Pairwise SepPath := by
+  refine ⟨?_, ?_⟩
+  · intro b hb ev hev
+    simp only [blocksAB, List.mem_cons, List.mem_nil_iff, or_false] at hb
+    rcases hb with rfl | rfl <;> simp only [List.mem_cons, List.mem_nil_iff, or_false] at hev <;>
+      rcases hev with rfl | rfl <;> rfl
+  · simp only [blocksAB, List.pairwise_cons, List.mem_cons, List.mem_nil_iff, or_false, forall_eq, List.Pairwise.nil,
+      and_true, false_imp_iff, implies_true]
+    exact sepPath_of_parts _ _ [T "a.ini"] [T "browser", T "b.ini"] (by decide +kernel) (by decide +kernel) (by decide)
+
+end observer
 
 end C18
